@@ -868,7 +868,7 @@ C12.cli_relabel = _c12_cli_relabel
 
 class C15(Check):
     pid = "C15"
-    lean_modules = ["MTProps.C15", "MTProps.CodeMain"]
+    lean_modules = ["MTProps.C15", "MTProps.CodeMain", "MTProps.CodeCli"]
 
     def body(self):
         rng = self.rng
